@@ -421,7 +421,7 @@ func newTracker(model *clus.IPFS, st state.State, workers int) *stateless.Tracke
 	var svc interface{} = &clus.IPFSSvc{M: model}
 	if realConn {
 		var closer func()
-		svc, closer = realService(model)
+		svc, closer = clus.RealIPFSService(model)
 		realClosers.Store(tr, closer)
 	}
 	tr.SetClient(clus.LocalRPC(map[string]interface{}{"IPFSConnector": svc}))
